@@ -4094,7 +4094,14 @@ def r09_15(ctx):
     ks = [k for k in F.bodies if re.match(r"wire::icmpv4::Repr::<'a>::parse$", k) or re.match(r"wire::icmpv4::Repr::parse$", k)]
     ctx.need(ks, "icmpv4::Repr::parse")
     b = F.bodies[ks[0]]
-    fam = [b] + [F.bodies[n] for n in {b.callee_name(x[1]) for x in b.calls()} if n in F.bodies and n.startswith('wire::icmpv4::')]
+    # parse and every helper of wire::icmpv4 it reaches
+    fam, todo = [], [b]
+    while todo:
+        y = todo.pop()
+        if y in fam:
+            continue
+        fam.append(y)
+        todo += [F.bodies[n] for n in {y.callee_name(x[1]) for x in y.calls()} if n in F.bodies and n.startswith('wire::icmpv4::')]
     quoted = False
     for fb in fam:
         for x in fb.calls():
@@ -4389,6 +4396,8 @@ def r16_13(ctx):
 
     def short(f):
         # prefix_len known to be neither 31 nor 32 / below 31
+        if f[0] == 'notin' and any(l.endswith('.prefix_len') for l in leafs(f[1])) and 31 in f[2]:
+            return True         # the otherwise-arm of `match prefix_len { 31 | 32 => .. }`
         if f[0] != 'rel' or not any(l.endswith('.prefix_len') for l in leafs(f[2]) | leafs(f[3])):
             return False
         c = const_of(simplify(f[3])) if any(l.endswith('.prefix_len') for l in leafs(f[2])) else None
